@@ -10,7 +10,7 @@ from mirse import summaries as SM
 from . import step as ST
 
 
-def s_chars(ex, st, fr, text, args):
+def s_chars_unused(ex, st, fr, text, args):
     """str::chars of the harness's symbolic string: the same character sequence as the iterator input"""
     v = args[0]
     if isinstance(v, Ref):
@@ -21,7 +21,7 @@ def s_chars(ex, st, fr, text, args):
 
 
 import re
-EXTRA_SUMMARIES = [(re.compile(r'core::str::<impl str>::chars$'), s_chars)]
+EXTRA_SUMMARIES = []
 
 
 def values_differ(ex, pc, a, b, path=''):
@@ -103,11 +103,16 @@ def run_c14(h):
         args.append(Native('input', (0,)) if kind.startswith('iter') else Ref(0, 'instr'))
         if kind.endswith('state'):
             args.append(default_state)
-        st, lx = h.one(ex.call_fn(st, h.fn(h.L + '_', name), args), name)
-        lexers[name] = (st, lx)
+        res = ex.call_fn(st, h.fn(h.L + '_', name), args)
+        bad = [r for r in res if r[0] != 'return']
+        if bad:
+            out.append(ST.Mismatch(['ctor'], 'constructor %s panics: %s' % (name, bad[0][2]), h.best_model(bad[0][1].pc), {'ctor': name}))
+        lexers[name] = [(s2, v) for k, s2, v in res if k == 'return']
     names = field_names(h)
     ref_name = 'new_from_iter_with_state'
-    ref_inner = lexers[ref_name][1].f[0]
+    if len(lexers[ref_name]) != 1:
+        raise Inconclusive('reference constructor has %d paths' % len(lexers[ref_name]))
+    ref_inner = lexers[ref_name][0][1].f[0]
     # boundary state
     ent = h.entries()[0]
     F = h.F
@@ -115,18 +120,19 @@ def run_c14(h):
               ('iter_loc', A((S(32, 0), S(32, 0), S(64, 0)))), ('current_match_start', A((S(32, 0), S(32, 0), S(64, 0)))),
               ('current_match_end', A((S(32, 0), S(32, 0), S(64, 0)))), ('last_match', E('None')),
               ('__iter', A((Native('input', (0,)), E('None')))), ('user_state', default_state)]
-    for cname, (st, lx) in lexers.items():
+    for cname, paths in lexers.items():
+      for (st, lx) in paths:
         inner = lx.f[0]
         for fname, want in checks:
             d = values_differ(ex, st.pc, inner.f[F[fname]], want, fname)
             if d:
-                out.append(ST.Mismatch(['ctor'], 'constructor %s: field %s is not that of the initial boundary state (%s)' % (cname, fname, d[0]), d[1], {'ctor': cname}, post=True))
+                out.append(ST.Mismatch(['ctor'], 'constructor %s: field %s is not that of the initial boundary state (%s)' % (cname, fname, d[0]), d[1] or h.best_model(st.pc), {'ctor': cname}, post=True))
         for i in range(len(inner.f)):
             if names.get(i) == 'input':
                 continue
             d = values_differ(ex, st.pc, inner.f[i], ref_inner.f[i], names.get(i, str(i)))
             if d:
-                out.append(ST.Mismatch(['ctor'], 'constructors %s and %s differ in field %s' % (cname, ref_name, d[0]), d[1], {'ctor': cname}, post=True))
+                out.append(ST.Mismatch(['ctor'], 'constructors %s and %s differ in field %s' % (cname, ref_name, d[0]), d[1] or h.best_model(st.pc), {'ctor': cname}, post=True))
     h.stats['paths'] += 4
     h.cover('token')
     return out
@@ -158,8 +164,40 @@ def run_c15(h, rho, prepeek, done):
             d = values_differ(ex, s2.pc, s2.root()['lx'], s.root()['lx'], 'lexer')
             if d:
                 out.append(ST.Mismatch(['clone'], 'clone() modified the original (%s)' % d[0], d[1] or h.best_model(s2.pc), {}))
+    def same_stream(s, where):
+        """clone, advance the original by one call, then advance the clone by one call in the same world: the two
+        items must be equal (they start from equal states; anything else means state shared outside the lexer)"""
+        res = ex.call_fn(s.fork(), clone_fn, [Ref(0, 'lx')])
+        for kind, s2, cl in res:
+            if kind != 'return':
+                continue
+            s2.root()['cl'] = cl
+            s2.events = []
+            dbase = len(s2.aux.get('decisions', ()))
+            s2.aux['dec_base'] = dbase
+            for k1, s3, v1 in ex.call_fn(s2, nxt, [Ref(0, 'lx')]):
+                h.stats['paths'] += 1
+                if k1 != 'return':
+                    continue
+                ev1 = list(s3.events)
+                s3.events = []
+                # the clone's user state is a copy: its actions read the same decisions the original's actions read
+                s3.aux['script'] = list(s3.aux.get('decisions', ())[dbase:])
+                s3.aux['decisions'] = ()
+                for k2, s4, v2 in ex.call_fn(s3, nxt, [Ref(0, 'cl')]):
+                    h.stats['paths'] += 1
+                    if k2 != 'return':
+                        out.append(ST.Mismatch(['clone'], 'next() on the clone panics after the original advanced (%s)' % where, h.best_model(s4.pc), {}))
+                        continue
+                    d = values_differ(ex, s4.pc, v1, v2, 'item')
+                    if d:
+                        out.append(ST.Mismatch(['clone'], 'after the original advanced, the clone yields a different item for the same input (%s): %s' % (where, d[0]), d[1] or h.best_model(s4.pc), {}))
+                    elif len(ev1) != len(s4.events):
+                        out.append(ST.Mismatch(['clone'], 'the clone runs a different number of actions than the original (%s)' % where, h.best_model(s4.pc), {}))
     for s in starts:
         check_clone(s, 'at the start state')
+        if not prepeek and not done:
+            same_stream(s, 'cloned at the start state')
         s.events = []
         for kind, s2, val in ex.call_fn(s, nxt, [Ref(0, 'lx')]):
             h.stats['paths'] += 1
